@@ -76,6 +76,39 @@ class ContentFilterTree(tree.Tree):
         """
         return self.backing_tree.has_filename(filename)
 
+    def get_symlink_target(self, path):
+        """Get the target of a symlink (content filters never apply to it).
+
+        Args:
+            path: Path to the symlink.
+
+        Returns:
+            The symlink target of the backing tree.
+        """
+        return self.backing_tree.get_symlink_target(path)
+
+    def get_file_mtime(self, path):
+        """Get the modification time of a file in the backing tree.
+
+        Args:
+            path: Path to the file.
+
+        Returns:
+            The modification time reported by the backing tree.
+        """
+        return self.backing_tree.get_file_mtime(path)
+
+    def is_versioned(self, path):
+        """Check whether a path is versioned in the backing tree.
+
+        Args:
+            path: Path to check.
+
+        Returns:
+            True if the path is versioned, False otherwise.
+        """
+        return self.backing_tree.is_versioned(path)
+
     def is_executable(self, path):
         """Check if a file is executable.
 
